@@ -60,6 +60,28 @@ def combine_into(d: dict, combined: dict) -> None:
             combined[k] = v
 
 
+def require_encodable_text(value: Any, key: str = "") -> None:
+    """
+    Refuses configuration texts that are not valid Unicode. A lone surrogate (which the JSON and YAML decoders accept
+    as an escape like `\\ud800`) can neither be used in a file name nor be written to a generated file.
+
+    Raises:
+        ConfigurationException: naming the key that holds such a text.
+    """
+    if isinstance(value, dict):
+        for k, v in value.items():
+            require_encodable_text(k, key)
+            require_encodable_text(v, f"{key}.{k}" if key else str(k))
+    elif isinstance(value, list):
+        for v in value:
+            require_encodable_text(v, key)
+    elif isinstance(value, str):
+        try:
+            value.encode("utf-8")
+        except UnicodeEncodeError:
+            raise ConfigurationException(f"'{key}': the text {ascii(value)} is not valid Unicode (lone surrogate)")
+
+
 def get_config(config: Any, key: str, base_path: str = None) -> Any:
     """
     Tries to get an attribute from a given config model by the name of the key with `getattr`.
@@ -245,6 +267,7 @@ class API:
                 raise ConfigurationException("The configuration file must contain a mapping of configuration keys",
                                              position=Position(file=path))
             combine_into(options, config_dict)
+            require_encodable_text(config_dict)
             config = self._configuration_model.model_validate(config_dict)
             return API.ConfiguredContext(
                 config=config,
